@@ -9,38 +9,49 @@
 (*           the real cmp of each key column (keycols names them); whether sorting the result    *)
 (*           again changes it                                                                    *)
 (*  dsortval d.sort(col = [values in order], ...): fully pinned, recomputed here                  *)
+(*  session  a whole sort session (OrderSess): the seed heap and the history TLC generated, and per *)
+(*           step what the real code did (outcome of the call as for sort / dsort / dsortval, and   *)
+(*           every live table and list afterwards).  The heap is tracked HERE, step by step: a    *)
+(*           call is judged by the single-call clauses against the operands as the tracked heap  *)
+(*           holds them at that moment, must leave every existing object as it was, and its      *)
+(*           result becomes a new object of the heap; a caller's edit must change the edited     *)
+(*           object only.                                                                         *)
+(*  cmprow2  as cmprow, over a second universe (file MAT2_FILE): dicts whose keys are not strings  *)
 (* Numbers beyond TLC's integers arrive as exact binary expansions (OrderBig, tag "x").          *)
-EXTENDS OrderBig, Batch
+EXTENDS OrderSess, Batch
 
 Mat  == JsonDeserialize(IOEnv.MAT_FILE)
+Mat2 == JsonDeserialize(IOEnv.MAT2_FILE)
 Pick(S) == CHOOSE e \in S : TRUE
 Show2(name, w) == name \o ":" \o ToString(w[1]) \o "," \o ToString(w[2])
 
-RowVerdict(i) ==
-    LET vals == Mat.vals  M == Mat.M
+\* a dict with keys of any kind crosses as <<"mk", <<<<key, value>>, ...>>>>.  Python's own order is undefined between keys
+\* of different kinds (numbers and bools are one kind): such a dict is still "a dict of these" and cmp must not raise on it
+KeyKind(k) == IF Tag(k) \in {"i", "f", "b", "x", "inf"} THEN "num" ELSE Tag(k)
+MixedKeys(v) == Tag(v) = "mk" /\ \E p, q \in 1..Len(Pay(v)) : KeyKind(Pay(v)[p][1]) # KeyKind(Pay(v)[q][1])
+RowVerdictOf(mat, i) ==
+    LET vals == mat.vals  M == mat.M
         raised == RaisedRow(vals, M, i)
         anti   == NotAntisymRow(vals, M, i)
         pinned == NotPinnedRow(vals, M, i)
         pinbig == NotPinnedBigRow(vals, M, i)
         trans  == NotTransRow(vals, M, i)
     IN  IF ~XAllWellFormed(vals[i]) THEN Show2("x_malformed", <<i, i>>)
-        ELSE IF raised # {} THEN Show2("cmp_raises", Pick(raised))
+        ELSE IF raised # {} THEN LET w == Pick(raised) IN
+                                 Show2(IF MixedKeys(vals[w[1]]) \/ MixedKeys(vals[w[2]]) THEN "cmp_raises_mixed_keys" ELSE "cmp_raises", w)
         ELSE IF anti # {} THEN Show2("cmp_not_antisymmetric", Pick(anti))
         ELSE IF pinned # {} THEN Show2("cmp_pinned_value", Pick(pinned))
         ELSE IF pinbig # {} THEN Show2("cmp_pinned_big", Pick(pinbig))
         ELSE IF trans # {} THEN Show2("cmp_not_transitive", Pick(trans))
         ELSE ""
+RowVerdict(i) == RowVerdictOf(Mat, i)
 
 \* lexicographic sign of a sequence of per-column comparisons
 RECURSIVE Lex(_, _)
 Lex(cs, k) == IF k > Len(cs) THEN 0 ELSE IF cs[k] # 0 THEN cs[k] ELSE Lex(cs, k + 1)
 RowsPerm(rows, out) == Len(rows) = Len(out) /\ {rows[i] : i \in 1..Len(rows)} = {out[i] : i \in 1..Len(out)}
 
-\* dictionary lookup of the explicit value orders: listed values by position, unlisted last
-Rank(v, vs) == IF \E i \in 1..Len(vs) : SameForSetX(v, vs[i])
-               THEN CHOOSE i \in 1..Len(vs) : SameForSetX(v, vs[i]) /\ \A j \in 1..(i - 1) : ~SameForSetX(v, vs[j])
-               ELSE Len(vs) + 1
-RankCmp(orders, r, s) == Lex([k \in 1..Len(orders) |-> Sign(Rank(r[orders[k][1]], orders[k][2]) - Rank(s[orders[k][1]], orders[k][2]))], 1)
+\* (explicit value orders: Rank, RankCmp, IsByValueOrder are in OrderSess)
 
 \* dictable.sort on key columns: the rows are ordered by cmp, column after column, ties keeping the original
 \* order - or by cmp refined with the exact numeric order where cmp ties two different numbers (OrderBig)
@@ -48,10 +59,14 @@ DsortCmp(o)     == o.colcmp
 DsortRefined(o) == [p \in 1..Len(o.colcmp) |-> [k \in 1..Len(o.colcmp[p]) |->
                       RefinedCmp(o.colcmp[p][k], o.out[p][o.keycols[k]], o.out[p + 1][o.keycols[k]])]]
 OrderedBy(cc)   == \A p \in 1..Len(cc) : Lex(cc[p], 1) \in {-1, 0}
-StableBy(o, cc) == \A p \in 1..Len(cc) : Lex(cc[p], 1) = 0 => Pay(o.out[p].id) < Pay(o.out[p + 1].id)
+\* ties keep the order they have in the operand (rows carry unique ids; a single-call table has them in ascending order,
+\* the operand of a call in a session may be a result or an edited table)
+PosOfId(rows, r) == CHOOSE i \in 1..Len(rows) : rows[i].id = r.id
+StableBy(o, cc) == \A p \in 1..Len(cc) : Lex(cc[p], 1) = 0 => PosOfId(o.rows, o.out[p]) < PosOfId(o.rows, o.out[p + 1])
 
-Verdict(o) ==
+CallVerdict(o) ==
     CASE o.kind = "cmprow" -> RowVerdict(o.i)
+      [] o.kind = "cmprow2" -> RowVerdictOf(Mat2, o.i)
       [] o.kind = "sort" ->
            IF o.raised # "" THEN "sort_raises"
            ELSE IF ~IsPerm(o.xs, o.out) THEN "sort_not_a_permutation"
@@ -67,12 +82,44 @@ Verdict(o) ==
            ELSE IF ~o.again THEN "dsort_not_idempotent"
            ELSE ""
       [] o.kind = "dsortval" ->
-           LET RC(r, s) == RankCmp(o.orders, r, s) IN
            IF o.raised # "" THEN "dsortval_raises"
            ELSE IF o.after # o.rows THEN "dsortval_operand_changed"
-           ELSE IF o.out # StableSort(RC, o.rows) THEN "dsortval_order"
+           ELSE IF ~IsByValueOrder(o.orders, o.rows, o.out) THEN (IF OrdersHaveDup(o.orders) THEN "dsortval_order_dup" ELSE "dsortval_order")
            ELSE ""
       [] OTHER -> "unknown_kind"
+
+\* ---- sessions ---------------------------------------------------------------------------------------
+\* the single-call observation a call step amounts to, its operands taken from the tracked heap S
+AsCall(S, st, ob) ==
+    CASE st.op \in {"sort", "sortfn"} -> [kind |-> "dsort", rows |-> S.tabs[st.src], keycols |-> KeyCols(st), raised |-> ob.raised, out |-> ob.out,
+                                          colcmp |-> ob.colcmp, again |-> ob.again, after |-> ob.tabs[st.src]]
+      [] st.op = "sortval"  -> [kind |-> "dsortval", rows |-> S.tabs[st.src], orders |-> OrdersAt(S, st), raised |-> ob.raised, out |-> ob.out,
+                                after |-> ob.tabs[st.src]]
+      [] st.op = "listsort" -> [kind |-> "sort", xs |-> S.lsts[st.lst], raised |-> ob.raised, out |-> ob.out, adj |-> ob.adj, far |-> ob.far]
+\* the heap after the step: a call allocates what it returned (judged lawful before), an edit is the caller's own action
+Tracked(S, st, ob) == IF st.op = "listsort" THEN NewList(S, ob.out)
+                      ELSE IF IsCall(st) THEN NewTable(S, ob.out)
+                      ELSE IF st.op = "setcol" THEN EditTable(S, st) ELSE EditList(S, st)
+StepVerdict(S, st, ob) ==
+    LET T == Tracked(S, st, ob) IN
+    IF ~Enabled(S, st) THEN "sess_step_not_enabled"                \* the generator and this specification disagree: machinery
+    ELSE IF IsCall(st) THEN
+        LET v == CallVerdict(AsCall(S, st, ob)) IN
+        IF v # "" THEN v
+        ELSE IF ob.tabs # T.tabs \/ ob.lsts # T.lsts THEN "sess_call_changes_caller_object"
+        ELSE ""
+    ELSE IF ob.raised # "" THEN "sess_edit_raises"
+    ELSE IF st.op = "setcol" /\ ob.tabs[st.src] # T.tabs[st.src] THEN "sess_edit_not_applied"
+    ELSE IF st.op = "setlst" /\ ob.lsts[st.lst] # T.lsts[st.lst] THEN "sess_edit_not_applied"
+    ELSE IF ob.tabs # T.tabs \/ ob.lsts # T.lsts THEN "sess_edit_changes_other_object"
+    ELSE ""
+RECURSIVE Walk(_, _, _)
+Walk(o, S, k) == IF k > Len(o.hist) THEN ""
+                 ELSE LET v == StepVerdict(S, o.hist[k], o.obs[k]) IN
+                      IF v # "" THEN v ELSE Walk(o, Tracked(S, o.hist[k], o.obs[k]), k + 1)
+SessVerdict(o) == IF Len(o.obs) # Len(o.hist) THEN "sess_malformed" ELSE Walk(o, o.init, 1)
+
+Verdict(o) == IF o.kind = "session" THEN SessVerdict(o) ELSE CallVerdict(o)
 
 Init == BatchInit
 Next == BatchNext(Verdict)
